@@ -157,5 +157,5 @@ Definition m_valid_conv (e : med) (c : composition) (ivs : list interval) : bool
   let d := dict (sh e) in
   match engine (sh e) with
   | EngSimple => list_eqb interval_eqb (simple_convert (m_lookup1 d) spell c) ivs
-  | k => valid_conversion (fun syms => md_lookup d (engine_fuzzy k) (syl_prefix syms)) c ivs
+  | k => valid_conversion spell (fun syms => md_lookup d (engine_fuzzy k) (syl_prefix syms)) c ivs
   end.
